@@ -33,6 +33,13 @@ BUDGET = {"quick": {"shards": 8, "seconds": 40}, "thorough": {"shards": 16, "sec
 STEP_WAIT = 0.25
 
 
+def _now(r: Any) -> Any:
+    """AsyncDAG flavour: the thread awaits the DAG in an event loop of its own."""
+    import asyncio
+
+    return asyncio.run(r) if asyncio.iscoroutine(r) else r
+
+
 class UserBug(Exception):
     """An error in the user's describing function (the build must fail cleanly and leave no trace)."""
 
@@ -67,9 +74,9 @@ class Worker(threading.Thread):
                     with ex:
                         if op.get("via") == "executor":
                             # the documented per-thread way of running a shared DAG: an executor object of one's own
-                            r["value"] = self.shared.dag.executor()(*[prog.dec(a) for a in op["args"]])
+                            r["value"] = _now(self.shared.dag.executor()(*[prog.dec(a) for a in op["args"]]))
                         else:
-                            r["value"] = self.shared.dag(*[prog.dec(a) for a in op["args"]])
+                            r["value"] = _now(self.shared.dag(*[prog.dec(a) for a in op["args"]]))
                 elif op["op"] == "outside":
                     r["value"] = self.outside(prog.dec(op["arg"]))
                 elif op["op"] == "reconf":
@@ -153,8 +160,8 @@ def _script(case: Dict[str, Any], res: CaseResult) -> None:
     old = tawazi.cfg.TAWAZI_EXECNODE_OUTSIDE_DAG_BEHAVIOR
     tawazi.cfg.TAWAZI_EXECNODE_OUTSIDE_DAG_BEHAVIOR = XNOutsideDAGCall(case.get("outside_behavior", "error"))
     try:
-        shared = prog.build(SP, mc=2)
-        shared.dag.setup()
+        shared = prog.build(SP, mc=2, is_async=bool(case.get("shared_async")))
+        _now(shared.dag.setup())
         outside_fn = prog.make_body("outfn", {"kind": "term"})
         outside = tawazi.xn(outside_fn)
         # reference dumps: every build program alone
@@ -279,8 +286,8 @@ def _stress(case: Dict[str, Any], res: CaseResult) -> None:
     from tawazi.errors import TawaziUsageError
 
     SP = case["shared"]
-    shared = prog.build(SP, mc=case.get("mc", 2))
-    shared.dag.setup()
+    shared = prog.build(SP, mc=case.get("mc", 2), is_async=bool(case.get("shared_async")))
+    _now(shared.dag.setup())
     cfg_before = tawazi.cfg.TAWAZI_EXECNODE_OUTSIDE_DAG_BEHAVIOR
     outside = tawazi.xn(prog.make_body("outfn", {"kind": "term"}))
     outside_results: List[Any] = []
@@ -296,7 +303,7 @@ def _stress(case: Dict[str, Any], res: CaseResult) -> None:
                 a = [t * 1000 + i]
                 # node functions sleep a little (GIL released), so executions of different threads really overlap
                 with sched.Exec("free", sleeps=sleeps, watchdog=False):
-                    v = shared.dag(*a)
+                    v = _now(shared.dag(*a))
                 want = prog.ref_run(SP, a, prog.Ref())
                 if v != want:
                     errs.append(f"thread {t} call {i} args {a}: returned {v!r}, reference {want!r}")
@@ -403,7 +410,8 @@ def cases(draw: Any, tier: str) -> Dict[str, Any]:
                                     dep_kinds=("pos", "kw"), name=f"BS{t}", reuse=True)) for t in range(draw(st.integers(2, 4)))]
         return {"family": "buildstress", "progs": progs, "n_rounds": draw(st.integers(10, 30))}
     if draw(st.sampled_from([True] + [False] * 9)):
-        return {"family": "stress", "shared": shared, "n_threads": 8, "n_calls": draw(st.integers(10, 40)), "mc": draw(st.integers(1, 3))}
+        return {"family": "stress", "shared": shared, "n_threads": 8, "n_calls": draw(st.integers(10, 40)), "mc": draw(st.integers(1, 3)),
+                "shared_async": draw(st.sampled_from([False, False, True]))}
     nthreads = draw(st.integers(2, 3))
     private = draw(gen.flat_prog(min_sites=2, max_sites=4, max_deps=2, resources=("thread", "main-thread"),
                                  dep_kinds=("pos", "kw"), name="PV", prio_range=(0, 2)))
@@ -439,6 +447,7 @@ def cases(draw: Any, tier: str) -> Dict[str, Any]:
     total = sum(len(o) + sum(1 for x in o if x["op"] == "build" and x.get("pause") is not None) for o in threads)
     order = [0] + draw(st.lists(st.integers(0, nthreads - 1), min_size=total, max_size=total + 3))
     return {"family": "script", "shared": shared, "private": private, "threads": threads, "order": order,
+            "shared_async": draw(st.sampled_from([False, False, True])),
             "outside_behavior": draw(st.sampled_from(["error", "error", "ignore"]))}
 
 
